@@ -84,3 +84,20 @@ package vgirpc
 //@   ensures [local_clean_ret2] forall k int :: 0 <= k && k < len(out) ==> trimmed(out[k]) && lowered(out[k]) && !hasByte(out[k], 59)
 //@   ensures [local_nodup_ret2] (forall k int :: 0 <= k && k < len(out) ==> out[k] != "") &&
 //@       (forall j int, k int :: 0 <= j && j < k && k < len(out) ==> out[j] != out[k])
+
+// SetCompressionLevel: a level takes effect only after it was validated — a positive level is
+// applied only once a probe encoder could be built for it, and a level the probe rejects is
+// reported and changes nothing (so the server never advertises or negotiates a codec it cannot
+// produce at the stored level); a level <= 0 switches compression off.
+//
+//@ func (*HttpServer).SetCompressionLevel
+//@   property C17
+//@   pathflag probed
+//@   pathflag probeOK
+//@   at call zstd.NewWriter mark probed
+//@   at call zstd.NewWriter setflag probeOK result1 == nil
+//@   at call (*HttpServer).applyCompressionLevel assert [validatedfirst] arg0 == h && ((level <= 0 && arg1 == 0) || (level > 0 && arg1 == level && probed && probeOK))
+//@   pathflag applied
+//@   at call (*HttpServer).applyCompressionLevel mark applied
+//@   ensures [local_rejectedunchanged] result != nil ==> !applied
+//@   ensures [local_acceptedapplied] result == nil ==> applied
